@@ -3,3 +3,24 @@
 pub(crate) fn fmt_stub(_args: std::fmt::Arguments<'_>) -> String {
     String::new()
 }
+
+/// Executable form of the contract of `znx_switch_ring_ref` (spec `switch_spec`, proved for the real function in Verus unit
+/// `znx`): used as a verified stub where the std `step_by().zip()` iterator machinery makes symbolic execution explode.
+#[allow(dead_code)]
+pub(crate) fn switch_ring_contract(res: &mut [i64], a: &[i64]) {
+    let (n_in, n_out) = (a.len(), res.len());
+    assert!(n_in >= 1 && n_out >= 1 && n_in.max(n_out) % n_in.min(n_out) == 0);
+    let mut i = 0;
+    while i < n_out {
+        res[i] = if n_in == n_out {
+            a[i]
+        } else if n_in > n_out {
+            a[i * (n_in / n_out)]
+        } else if i % (n_out / n_in) == 0 {
+            a[i / (n_out / n_in)]
+        } else {
+            0
+        };
+        i += 1;
+    }
+}
